@@ -54,7 +54,7 @@ def run_roundtrips(chk, U, binary, containers=("bare", "plain", "noschema", "bzi
         vals = r["vals"] if max_vals is None else r["vals"][:max_vals]
         for vi, x in enumerate(vals):
             for c in containers:
-                for v in versions:
+                for v in ([r["curver"]] if r.get("curver") else versions):
                     n += 1
                     cid = "%s%d" % (name, n)
                     lines.append("%s ty_rt %d %s %d %d" % (cid, ri, c, v, vi))
